@@ -54,6 +54,10 @@ def cases(tier, seed):
         for N in Ns:
             for op in OPS:
                 out.append({"id": f"{tree}-N{N}-{op}", "kind": "coll", "tree": tree, "N": N, "op": op, "target": "root", "weight": 3})
+    # a vector rotation merged into the middle of a longer path (start + n < N) with the parent-path anchor
+    out.append({"id": "flat-N3-rotate-none-midpath", "kind": "coll", "tree": "flat", "N": 3, "op": "rotate-none", "target": "root", "weight": 5,
+                "combos": [[2, 0], [2, 1], [2, -3], [None, 1]]})
+    out.append({"id": "nested-N3-move-midpath", "kind": "coll", "tree": "nested", "N": 3, "op": "move", "target": "root", "weight": 3, "combos": [[2, 0], [2, -3]]})
     for N in Ns:
         for op in ("move", "rotate-vec", "position="):
             out.append({"id": f"nested-N{N}-{op}-on-inner", "kind": "coll", "tree": "nested", "N": N, "op": op, "target": "I", "weight": 3})
@@ -214,8 +218,9 @@ def run_case(case, info):
     starts = STARTS if op in ("move",) or op.startswith("rotate") else [None]
     if C.tier == "quick" and starts != [None]:
         starts = [-1, 0, 1, "auto"]
-    for n_in, start in itertools.product(_arg_forms(op, N), starts):
-        if C.tier == "quick" and op.startswith("rotate") and n_in is not None and start not in (0, "auto"):
+    combos = [tuple(c) for c in case["combos"]] if case.get("combos") else list(itertools.product(_arg_forms(op, N), starts))
+    for n_in, start in combos:
+        if C.tier == "quick" and not case.get("combos") and op.startswith("rotate") and n_in is not None and start not in (0, "auto"):
             continue  # vector rotations with merging starts need the long solver runs: thorough tier
         CTX.reset([])
         root = build(tree, N)
